@@ -81,14 +81,13 @@ Theorem C14_restore_overlap_refuted :
 Proof. exact ps_restore_overlap_refuted. Qed.
 Print Assumptions C14_restore_overlap_refuted.
 
-Theorem C14_restore_unmodified_wipes_refuted :
-  let o := ps_w_obj (PsDict [([97], PsNum 5 0)]) in
-  let o1 := snd (ps_modify_attribute ps_w_fe ps_w_path_a (PsNum 6 0) true 1%Z o) in
-  let o2 := snd (ps_restore_attribute ps_w_fe [110] true 2%Z o1) in
-  ps_orig_mentions [110] o1 = false /\ fst (ps_restore_attribute ps_w_fe [110] true 2%Z o1) = true /\
-  ps_get_attr [110] o1 = PsStr [120] /\ ps_get_attr [110] o2 = PsStr [].
-Proof. exact ps_restore_unmodified_refuted. Qed.
-Print Assumptions C14_restore_unmodified_wipes_refuted.
+(* fixed (repo commit 587182ba): RestoreAttribute of a top-level attribute that original_attributes does not list
+   leaves the object exactly as it is - for every object, whatever else is modified *)
+Theorem C14_restore_unmodified_noop : forall fe attr updv now o,
+  length (ps_split attr) = 1%nat -> ps_orig_mentions attr o = false ->
+  snd (ps_restore_attribute fe attr updv now o) = o.
+Proof. exact ps_restore_unmodified_noop. Qed.
+Print Assumptions C14_restore_unmodified_noop.
 
 Theorem C14_modattr_dump_throws_refuted :
   let o := ps_w_obj (PsDict [([97], PsDict [([120], PsNum 1 0)])]) in
